@@ -7,6 +7,7 @@ package meshgen
 import (
 	"encoding/json"
 	"fmt"
+	"strings"
 	"time"
 
 	"github.com/EliCDavis/polyform/math/trs"
@@ -231,6 +232,10 @@ func GenCase(g GenDesc) hx.Case {
 	}
 	names.Freeze()
 	c.Coq = "CGen " + resCoq(class, outs, names)
+	if gd, fl, ok := genIdxModel(g, class, outs); ok && EmitGenIdx {
+		// generators with an index model in Mesh/GenIdx.v: the correspondence compares the index list
+		c.Coq = fmt.Sprintf("CGenI %s %s %s", gd, fl, resCoq(class, outs, names))
+	}
 	_ = msg
 	kb, _ := json.Marshal(g)
 	c.Key = "gen|" + string(kb)
@@ -254,6 +259,29 @@ func admissible(g GenDesc) bool {
 		return geti(g, 0) >= 1 && geti(g, 1) != 4
 	}
 	return false
+}
+
+// EmitGenIdx: render fan / tube generator cases as CGenI (index list compared with Mesh/GenIdx.v).
+var EmitGenIdx = true
+
+// genIdxModel names the Gallina index model of a generator call, if it has one, and the flip table
+// of the tube (one boolean per quad, read off the winding the implementation chose).
+func genIdxModel(g GenDesc, class string, outs []Desc) (gd string, flips string, ok bool) {
+	if class != "ok" || len(outs) != 1 {
+		return "", "", false
+	}
+	switch g.Gen {
+	case "circle", "cone":
+		return fmt.Sprintf("(GFan %d%%nat)", geti(g, 0)), "[]", true
+	case "extrude_polygon", "extrude_circle":
+		idx := outs[0].Idx
+		fl := make([]string, 0, len(idx)/6)
+		for q := 0; q+5 < len(idx); q += 6 {
+			fl = append(fl, hx.CoqBool(idx[q+1] < idx[q+2]))
+		}
+		return fmt.Sprintf("(GTube %d%%nat %d%%nat)", geti(g, 0), len(g.P)/3), "[" + strings.Join(fl, ";") + "]", true
+	}
+	return "", "", false
 }
 
 // wfDesc: harness-side copy of wfb, used only for meshes too large to be rendered as Coq literals.
@@ -315,7 +343,7 @@ func RandomGen(r *hx.Rng, big bool) GenDesc {
 			return r.Range(-2, 1)
 		case 1:
 			if big {
-				return r.Range(13, 26)
+				return r.Range(13, 20)
 			}
 			return r.Range(9, 14)
 		}
